@@ -83,7 +83,7 @@ pub fn run_scenario(sc: &C12Scenario) -> JobsResult {
     let tmp = format!("{private}/tmp");
     let home = format!("{private}/home");
     let cache = format!("{private}/home/.cache");
-    let extra: Vec<(&str, &str)> = vec![("TMPDIR", &tmp), ("TMP", &tmp), ("TEMP", &tmp), ("HOME", &home), ("XDG_CACHE_HOME", &cache)];
+    let extra: Vec<(&str, &str)> = vec![("TMPDIR", &tmp), ("TMP", &tmp), ("TEMP", &tmp), ("HOME", &home), ("XDG_CACHE_HOME", &cache), ("MSIM_PRIVATE", &private)];
     let out = run_exec("exec-jobs", &input, &sc.env, &sc.cwd, &extra);
     let _ = std::fs::remove_dir_all(&private);
     if out.code == Some(0) {
@@ -872,6 +872,22 @@ pub fn run_check(tier_name: &str, seed: u64, verif_dir: &str) -> Outcome {
             }
         }
     }
+    // One program in eight goes through `transpile_dir` (a private project directory per job)
+    // instead of `mamba_to_python`: the same determinism is promised for the directory entry
+    // point, and its reads and writes are scheduling points.  Decided by the text, so that the
+    // two annotate twins of a program agree.
+    for p in programs.iter_mut() {
+        let mut paths: Vec<&str> = p.files.iter().map(|f| f.path.as_str()).collect();
+        paths.sort();
+        paths.dedup();
+        let plain = p.files.iter().all(|f| f.path.ends_with(".mamba") && !f.path.starts_with('/') && !f.path.contains(".."));
+        if p.path_mode.is_empty() && !p.files.is_empty() && paths.len() == p.files.len() && plain {
+            let d = digest(p.files.iter().map(|f| f.text.as_str()).collect::<Vec<_>>().join("\u{0}").as_bytes());
+            if u8::from_str_radix(&d[..2], 16).unwrap_or(1) % 8 == 0 {
+                p.path_mode = "dir".into();
+            }
+        }
+    }
     // corpus samples that carry a fenced feature are represented by the witness only
     let mut fenced_corpus = 0;
     for (i, p) in programs.iter().enumerate() {
@@ -1104,6 +1120,7 @@ pub fn run_check(tier_name: &str, seed: u64, verif_dir: &str) -> Outcome {
             "verdicts": verdicts,
             "distinct_hash_orders": orders.len(),
             "jobs_with_earlier_jobs_in_process": with_history,
+            "programs_run_through_transpile_dir": programs.iter().filter(|p| p.path_mode == "dir").count(),
             "jobs_repeating_an_earlier_job_of_their_thread": scenarios.iter().map(|sc| {
                 let mut seen = BTreeSet::new();
                 let mut n = 0u64;
